@@ -130,7 +130,7 @@ def run(tier, v):
     states += rT.distinct
     trans += rT.generated
     # ---- window classification over all 65536 windows
-    msss = [0, 99, 100, 536, 1220, 1400, 1440, 1448, 1460, 8960, 65535] if tier == "thorough" else [0, 99, 100, 1448, 1460]
+    msss = [0, 99, 100, 536, 1220, 1400, 1440, 1448, 1460, 8960, 65495, 65496, 65521, 65535] if tier == "thorough" else [0, 99, 100, 1448, 1460, 65535]
     cases = [{"mss": m, "th": th, "ts": ts, "ver": ver} for m in msss for th in (0, 5, 40, 60) for ts in (False, True) for ver in (4, 6)]
     wreq = os.path.join(wd, "win.req")
     vlib.write_ndjson(wreq, [{"id": 0, "op": "win_table", "cases": cases}])
